@@ -64,7 +64,7 @@ def confirm(d):
     t = sh("cd %s && cargo nextest run --workspace --no-fail-fast --offline 2>&1 | tail -15" % WT)
     m = re.search(r"(\d+) tests run: (\d+) passed(?: \((\d+) flaky\))?(?:, (\d+) failed)?", t.stdout)
     res["tests"] = m.group(0) if m else t.stdout[-600:]
-    failed = re.findall(r"FAIL \[.*?\] +(\S+ \S+)", t.stdout)
+    failed = re.findall(r"FAIL \[.*?\] +(?:\(\S+\) +)?(\S+ \S+)", t.stdout)
     res["failed"] = sorted(set(failed))
     build_release()
     res["demo_with"] = demo(d)
